@@ -6,7 +6,9 @@ maps, cells of fixed modules, layouts with different numbers of x and y boundari
 Spec on implementation (exact, `fractions.Fraction`): `must_be_refined(t)` ⇔ `refine(t)` changes the cell list (and then
 adds cells); `refine` = exactly the expected halvings in order with depth + levels; `uniform_refinement_depth` leaves
 every refinable cell at the former maximum depth; after `griddify` no refinable cell is crossed by a side line of
-another cell unless the cut would leave a piece thinner than 1% of the cell's other side.
+another cell unless the cut would leave a piece thinner than 1% of the cell's other side.  BOUNDARY: a piece of EXACTLY
+1% of the other side is refused as well (`min(...) > ratio * side` is strict; `FV.Rect.xCuttable` likewise) — checked
+directly on `x_cuttable / y_cuttable` (boundary refused, one ulp inside accepted) and on Q layouts that hit it exactly.
 """
 from __future__ import annotations
 
@@ -28,9 +30,13 @@ def spec_steps(ctx: Ctx, inp: dict, steps) -> None:
 
 
 def one(ctx: Ctx, rng, mode: str, pending: list) -> None:
-    inp = ac.gen_input(rng, mode, FLAVOUR)
-    nops = rng.choice([1, 2, 3, 3, 4, 5, 6])
-    segs, steps, sqrt_ans = ac.run_impl(inp, rng, FLAVOUR, nops)
+    if mode == "Q" and rng.random() < 0.04:
+        inp = ac.gen_boundary_input(rng)          # griddify exactly on the 1 % boundary
+        segs, steps, sqrt_ans = ac.run_impl(inp)
+    else:
+        inp = ac.gen_input(rng, mode, FLAVOUR)
+        nops = rng.choice([1, 2, 3, 3, 4, 5, 6])
+        segs, steps, sqrt_ans = ac.run_impl(inp, rng, FLAVOUR, nops)
     pending.append((inp, segs, ac.request(inp, sqrt_ans), sqrt_ans))
     spec_steps(ctx, inp, steps)
     valid = not segs[0].startswith("err")
@@ -70,7 +76,8 @@ def run(ctx: Ctx) -> None:
         replay_input(ctx, s, pending)
     for i in range(n):
         one(ctx, ctx.rng, "Q" if i % 2 == 0 else "F", pending)
-    c02.flush(ctx, pending)
+    c02.flush(ctx, pending, selftest=True)
+    ac.cuttable_boundary_stream(ctx, ctx.n(400, 4000))
 
 
 def replay_input(ctx: Ctx, inp: dict, pending: list) -> None:
@@ -82,5 +89,8 @@ def replay_input(ctx: Ctx, inp: dict, pending: list) -> None:
 
 def replay(ctx: Ctx, body: dict) -> None:
     pending: list = []
+    if body["input"].get("op") == "cuttable-boundary":
+        ac.replay_boundary(ctx, body["input"])
+        return
     replay_input(ctx, body["input"], pending)
     c02.flush(ctx, pending)
